@@ -291,6 +291,14 @@ def _gen_onion(repo):
             cmd_forbidden += c
         j += 1
     q = fn.body[j]
+    if isinstance(q, ast.Try):
+        # try: raw_res = yield ...queue_command(cmd) / except Exception: <cleanup>; raise
+        need(len(q.body) == 1 and not q.orelse and not q.finalbody and len(q.handlers) == 1
+             and q.handlers[0].body and isinstance(q.handlers[0].body[-1], ast.Raise)
+             and q.handlers[0].body[-1].exc is None
+             and not any(isinstance(n, ast.Name) and n.id in ('cmd', 'raw_res') for h in q.handlers[0].body
+                         for n in ast.walk(h)), "try around queue_command: the handler must clean up and re-raise")
+        q = q.body[0]
     need(isinstance(q, ast.Assign) and isinstance(q.value, ast.Yield) and isinstance(q.value.value, ast.Call)
          and isinstance(q.value.value.func, ast.Attribute) and q.value.value.func.attr == 'queue_command'
          and len(q.value.value.args) == 1 and _name(q.value.value.args[0], 'cmd'), "raw_res = yield ...queue_command(cmd)")
